@@ -49,6 +49,11 @@ class Gen:
         lines = []
         coms = r.sample(COMMODITIES, r.choice([1, 2, 2, 3, 3, 4]))
         accts = r.sample(ACCOUNTS, r.randint(2, 6))
+        if r.random() < 0.2:
+            # an account whose name differs from another one only in the case of a letter is a different account
+            twin = r.choice(accts)
+            accts.append(twin[:-1] + twin[-1].swapcase() if twin[-1].isalpha() else twin + "X")
+            meta["flavors"].append("case-twin-account")
         prec = {}
         # declarations
         for c in coms:
